@@ -1005,6 +1005,13 @@ class ServerSSM(SSM):
 
         self.response(segack)
 
+        # a request that ends with its first segment is complete
+        if not apdu.apduMor:
+            if _debug: ServerSSM._debug("    - no more follows")
+
+            self.set_state(AWAIT_RESPONSE, self.ssmSAP.applicationTimeout)
+            self.request(self.segmentAPDU)
+
     def segmented_request(self, apdu):
         if _debug: ServerSSM._debug("segmented_request %r", apdu)
 
